@@ -375,6 +375,7 @@ func runProtocol(kc *kernelCtx, blocks []*Block, only string, want map[string]bo
 	if on("C03") || on("C14") || on("C17") {
 		pc.p2BareReceive(only)
 	}
+	pc.t1Promoted(only)
 	if on("C09") || on("C01") || on("C06") || on("C10") || on("C11") {
 		pc.d2ContextlessMethods(only)
 	}
